@@ -352,10 +352,13 @@ void cmb_dataset_fivenum_print(const struct cmb_dataset *dsp,
         const double med = data_array_median(dsc.count, dsc.xa);
 
         const unsigned lhsz = dsc.count / 2;
-        const double q1 = data_array_median(lhsz, dsc.xa);
+        const double q1 = (lhsz > 0u) ? data_array_median(lhsz, dsc.xa) : med;
         double q3;
         const unsigned uhsz = dsc.count - lhsz;
-        if ((dsc.count % 2) == 0) {
+        if (dsc.count == 1u) {
+            q3 = med;
+        }
+        else if ((dsc.count % 2) == 0) {
             /* Even number of entries */
             q3 = data_array_median(uhsz, &(dsc.xa[lhsz]));
         } else {
